@@ -15,6 +15,9 @@ CHECKS = {
  "C02": ("exploration", "differential monitor: independent A2S server model (encoder) vs the real decoder over the scripted transport; M-panic/M-step",
          "Random server states (all 32 EDF masks, 9 engine classes, both info layouts, The Ship) are encoded by a server model written from the specification as single/Source-split/GoldSrc-split/bzip2-split datagrams with 0-3 challenge rounds, served by a reactive scripted server, and valve::query / the per-game modules must return the expected response field for field. Held = equality on every execution (quick 1.2e5, thorough 1.5e6).",
          "Server model (DESIGN Appendix A.1) is the trusted reference; Q1/Q2 layout questions follow the implementation; bzip2 payloads from /usr/bin/bzip2.", "4 C02"),
+ "C04": ("exploration", "differential monitor: independent GameSpy 1/2/3 server models (encoders) vs the real decoders over the scripted transport",
+         "Random GameSpy 1 (multi-part, query ids), 2 (key/value block + player/team tables) and 3 (handshake, splitnum packets, field sections continued across packets) states are encoded by server models and query / query_vars must return every scalar, every player and team and exactly the unconsumed variables. Evidence counts the states with players whose players all came back (the silent 'Ok with an empty list' class).",
+         "Implementation-defined formats: the models encode the layout the readers are meant to consume (DESIGN Appendix A.2-A.4); oracle is completeness.", "4 C04"),
 }
 NOT_YET = {}
 for i in range(1, 21):
